@@ -15,6 +15,8 @@
 package event
 
 import (
+	"fmt"
+
 	"github.com/emitter-io/emitter/internal/message"
 	"github.com/emitter-io/emitter/internal/security"
 	"github.com/kelindar/binary"
@@ -75,6 +77,7 @@ func (e *Subscription) Val() []byte {
 
 // decodeSubscription decodes the event
 func decodeSubscription(k string, v []byte) (e Subscription, err error) {
+	defer recoverDecode(&err)
 	if len(v) > 0 {
 		err = binary.Unmarshal(v, &e)
 	}
@@ -88,7 +91,20 @@ func decodeSubscription(k string, v []byte) (e Subscription, err error) {
 		e.Ssid[i] = binary.BigEndian.Uint32(buffer[16+(i*4) : 20+(i*4)])
 	}
 
+	// A subscription always names a contract, peers must not make us route an empty one
+	if err == nil && len(e.Ssid) == 0 {
+		err = fmt.Errorf("event: malformed subscription key")
+	}
+
 	return e, err
+}
+
+// recoverDecode turns the panic of decoding a malformed key or value, which a peer may
+// have put into the replicated state, into an error so that the entry is skipped.
+func recoverDecode(err *error) {
+	if r := recover(); r != nil {
+		*err = fmt.Errorf("event: malformed entry: %v", r)
+	}
 }
 
 // ------------------------------------------------------------------------------------
@@ -152,6 +168,7 @@ func (e Connection) Val() []byte {
 
 // decodeConnection decodes the event
 func decodeConnection(k string, v []byte) (e Connection, err error) {
+	defer recoverDecode(&err)
 	if len(v) > 0 {
 		err = binary.Unmarshal(v, &e)
 	}
